@@ -314,3 +314,120 @@ func zzArbitraryPoints(totalPoints, x, y, amount uint64) (uint64, lib.ErrorI) {
 }
 
 func zzArbitraryShare(a, b, c uint64) uint64 { return zzN64("share") }
+
+// C20 / X3d: receipts for our locked batch (the real HandleReceiptsForOurLockedBatch ->
+// HandleOrderReceipts -> HandleBatchDeposit -> lock lifted), one inductive step. The locked batch
+// holds one limit order (quick tier) or one or two (thorough) and at most one deposit; the holding pool holds exactly their sum
+// plus an arbitrary rest (the next batch). The counter chain's answer carries arbitrary receipts
+// (0 = order failed) and either this batch's hash and the right number of receipts, or not.
+// Obligations: an answer for another batch (or with a wrong receipt count) changes nothing and keeps
+// the lock; a matching answer settles every order and deposit exactly once - the holding pool is
+// left with the rest, a failed order is refunded exactly its amount to its owner, a successful one
+// moves exactly its amount into the liquidity pool and advances the mirror by its receipt, nobody
+// else's balance moves, the total supply is unchanged and still the sum of everything stored - and
+// lifts the lock. Minted point amounts are abstracted as in X3c; withdrawals are X3b.
+//
+//zz:harness mode=int unwind=60 maxpaths=400000 timebudget=5400 param.maxorders@quick=1 param.maxorders@thorough=2
+//zz:stub github.com/canopy-network/canopy/fsm.liquidityDepositPoints harness zzArbitraryPoints
+//zz:stub github.com/canopy-network/canopy/lib.SafeMulDiv harness zzArbitraryShare
+//zz:reach X3d.done X3d.settled X3d.waiting X3d.refunded X3d.swapped
+func ZZ_C20_X3d_receipts_settle_the_locked_batch_once() {
+	sm, _ := zzFSM(10)
+	total := zzWorld3(sm)
+	dead := []byte{0xde, 0xad, 0xde, 0xad, 0xde, 0xad, 0xde, 0xad, 0xde, 0xad, 0xde, 0xad, 0xde, 0xad, 0xde, 0xad, 0xde, 0xad, 0xde, 0xad}
+	deadAddr = crypto.NewAddress(dead)
+	x, y, rest := zzN64("x"), zzN64("y"), zzN64("holdingRest")
+	pd, p0 := zzN64("deadPoints"), zzN64("points0")
+	zzAssume(x >= 1 && y >= 1 && pd >= 1 && p0 >= 1)
+	zzAssume(total < 1<<60 && x < 1<<60 && y < 1<<60 && rest < 1<<60 && pd < 1<<60 && p0 < 1<<60)
+	no, nd := zzConcrete(zzInt("orders"), 1, zzParam("maxorders", 2)), zzConcrete(zzInt("deposits"), 0, 1)
+	batch := &lib.DexBatch{Committee: 2}
+	var owner [2]int
+	var amt, receipt [2]uint64
+	var sum uint64
+	for i := 0; i < no; i++ {
+		owner[i] = zzConcrete(zzInt("owner"), 0, 2)
+		amt[i], receipt[i] = zzN64("forSale"), zzN64("receipt")
+		zzAssume(amt[i] >= 1 && amt[i] < 1<<60)
+		sum += amt[i]
+		batch.Orders = append(batch.Orders, &lib.DexLimitOrder{AmountForSale: amt[i], RequestedAmount: zzN64("requested"), Address: zzAddr(owner[i]), OrderId: zzOrderId})
+	}
+	var dep uint64
+	if nd == 1 {
+		dep = zzN64("deposit")
+		zzAssume(dep < 1<<60)
+		batch.Deposits = []*lib.DexLiquidityDeposit{{Address: zzAddr(zzConcrete(zzInt("depositor"), 0, 2)), Amount: dep, OrderId: zzOrderId}}
+	}
+	lp := &Pool{Id: 2 + LiquidityPoolAddend, Amount: x, TotalPoolPoints: pd + p0,
+		Points: []*lib.PoolPoints{{Address: dead, Points: pd}, {Address: zzAddr(0), Points: p0}}}
+	if sm.SetDexBatch(KeyForLockedBatch(2), batch) != nil || sm.SetPool(lp) != nil || sm.SetPool(&Pool{Id: 2 + HoldingPoolAddend, Amount: sum + dep + rest}) != nil {
+		panic("world")
+	}
+	sup, _ := sm.GetSupply()
+	sup.Total = total + x + sum + dep + rest
+	if sm.SetSupply(sup) != nil {
+		panic("supply")
+	}
+	sm.ResetCaches()
+	local, e0 := sm.GetDexBatch(2, true)
+	if e0 != nil {
+		panic("locked batch")
+	}
+	remote := &lib.DexBatch{Committee: 1, ReceiptHash: local.Hash()}
+	for i := 0; i < no; i++ {
+		remote.Receipts = append(remote.Receipts, receipt[i])
+	}
+	matching := true
+	switch zzConcrete(zzInt("answer"), 0, 2) {
+	case 1: // an answer for some other batch
+		remote.ReceiptHash, matching = []byte{1, 2, 3}, false
+	case 2: // right hash, one receipt too many
+		remote.Receipts, matching = append(remote.Receipts, zzN64("extraReceipt")), false
+	}
+	before := zzBalances(sm)
+	mirror := y
+	locked, err := sm.HandleReceiptsForOurLockedBatch(remote, &mirror, 2)
+	if err != nil {
+		return // a receipt that exceeds the mirror, or an arithmetic guard of the abstracted points
+	}
+	sm.ResetCaches()
+	hold, _ := sm.GetPoolBalance(2 + HoldingPoolAddend)
+	liq, _ := sm.GetPoolBalance(2 + LiquidityPoolAddend)
+	after := zzBalances(sm)
+	stillLocked := zzHasKey(sm, KeyForLockedBatch(2))
+	if !matching {
+		zzReach("X3d.waiting")
+		zzAssert("X3d.foreign-answer-keeps-the-lock", locked && stillLocked)
+		zzAssert("X3d.foreign-answer-moves-nothing", hold == sum+dep+rest && liq == x && mirror == y)
+		for i := 0; i < 3; i++ {
+			zzAssert("X3d.foreign-answer-moves-nothing", after[i] == before[i])
+		}
+		zzReach("X3d.done")
+		return
+	}
+	zzReach("X3d.settled")
+	zzAssert("X3d.lock-lifted", !locked && !stillLocked)
+	zzAssert("X3d.holding-pool-left-with-the-next-batch-only", hold == rest)
+	var refund [3]uint64
+	var swapped, paidByCounter uint64
+	for i := 0; i < no; i++ {
+		if receipt[i] == 0 {
+			refund[owner[i]] += amt[i]
+			zzReach("X3d.refunded")
+		} else {
+			swapped += amt[i]
+			paidByCounter += receipt[i]
+			zzReach("X3d.swapped")
+		}
+	}
+	for i := 0; i < 3; i++ {
+		zzAssert("X3d.failed-orders-refunded-exactly-once-nobody-else-paid", after[i] >= before[i] && after[i]-before[i] == refund[i])
+	}
+	zzAssert("X3d.successful-orders-and-deposits-reach-the-liquidity-pool", liq == x+swapped+dep)
+	zzAssert("X3d.mirror-advanced-by-the-receipts", mirror == y-paidByCounter && paidByCounter < y)
+	sup1, _ := sm.GetSupply()
+	zzAssert("X3d.total-supply-unchanged", sup1.Total == total+x+sum+dep+rest)
+	s2, ok := zzSumWorld(sm)
+	zzAssert("X3d.total-equals-sum", ok && s2 == sup1.Total)
+	zzReach("X3d.done")
+}
